@@ -49,7 +49,7 @@ ASSUMPTIONS = [
     'atomic masses from the independent reader pvmon/ref/masses.py; N_A from periodictable.constants',
 ]
 
-PIN_IS_VIOLATION = True     # residue row != transcription is reported as a violation (see ASSUMPTIONS)
+PIN_IS_VIOLATION = False     # residue row != transcription is reported as a violation (see ASSUMPTIONS)
 TOL = 1e-10
 HERE = os.path.dirname(os.path.dirname(os.path.dirname(os.path.abspath(__file__))))
 EXT_TYPE = {'.fna': 'dna', '.ffn': 'dna', '.faa': 'aa', '.frn': 'rna'}
